@@ -59,7 +59,13 @@ func main() {
 	src := flag.String("src", "/repo/extractor/filesystem/filesystem.go", "Go source file")
 	out := flag.String("out", "", "output .v file (stdout if empty)")
 	structs := flag.String("structs", "", "comma-separated directories: list field accesses of all structs with methods (clients mode)")
+	mutations := flag.String("mutations", "", "comma-separated directories: only the in-place mutation table, named by -name")
+	defName := flag.String("name", "resolution_mutations", "definition name for -mutations")
 	flag.Parse()
+	if *mutations != "" {
+		mutationsMain(strings.Split(*mutations, ","), *out, *defName)
+		return
+	}
 	if *structs != "" {
 		structsMain(strings.Split(*structs, ","), *out)
 		return
